@@ -8,6 +8,7 @@ Line-protocol driver for the C09 model (`lake build c09drv`). Numbers are hexade
                       TXS   = `-` | tx `|` tx …; tx = `~` | ev `;` ev …; ev = `<from>` [`:` k `.` k …]   -> ok | err:<e>
   storen N            N blocks without transactions and with an empty bloom                   -> ok | err:<e>
   revert | snap | restart                                                                     -> ok | err:<e>
+  prune K             pruner.PruneUpto(K): retention floor K                                  -> ok
   mark                remember the current state for `explain`                                -> ok
   save | load         remember / restore the node (kept across `cfg`; the harness loads the long
                       common prefix of its histories once per driver process)                 -> ok
@@ -17,8 +18,12 @@ Line-protocol driver for the C09 model (`lake build c09drv`). Numbers are hexade
   qp ADDRS KEYS FROM TO TOKB TOKP CHUNK LIMIT BASE PRE
                       the same with the pre-confirmed blocks PRE = `-` | blk `+` blk …, blk = BLOOM `@` TXS,
                       numbered BASE+1 …; FROM / TO = ffffffffffffffff is the `pre_confirmed` tag        -> as `q`
+  iter ADDRS KEYS FROM TO LIMIT   the candidate blocks MatchedBlockIterator yields, and where the scan limit hit
+                                                                                              -> ok <b,…|-> lim=<b|-> | err:<e>
+  match ADDRS KEYS BLOOM TXS   `TestBloom` of the filter on the header bloom and, per event of the block
+                      in order, does it match (the subscription path: matchingEvents)     -> tb=<0|1> ev=<bits|->
   naive ADDRS KEYS FROM TO                                                                    -> <b.t.i,…|->
-  dump                P=[persisted window starts] S=<snapshot from/next|none> R=<running from/next> C=[cache keys, MRU first] H=<chain length>
+  dump                P=[persisted window starts] S=<snapshot from/next|none> F=<retention floor> R=<running from/next> C=[cache keys, MRU first] H=<chain length>
   explain B           which structure serves block B's window in the marked state, and does it
                       cover B's header bloom                                                  -> running|cache|persisted|none sound|stale
 -/
@@ -79,6 +84,7 @@ def showErr : Err → String
   | .notfound => "err:notfound"
   | .range => "err:range"
   | .bounds => "err:bounds"
+  | .pruned => "err:pruned"
 
 def showRes : Option Err → String
   | none => "ok"
@@ -99,7 +105,7 @@ def dump (n : Node) : String :=
     | some (a, nx) => s!"{a.from_}/{nx}"
     | none => "none"
   let c := ",".intercalate (n.cache.map (fun x => toString x.1))
-  s!"P=[{p}] S={s} R={n.running.from_}/{n.next} C=[{c}] H={n.chain.length}"
+  s!"P=[{p}] S={s} F={n.floor} R={n.running.from_}/{n.next} C=[{c}] H={n.chain.length}"
 
 def explain (cfg : Cfg) (n : Node) (b : Nat) : String :=
   let w := b - b % cfg.W
@@ -148,6 +154,10 @@ def step (st : St) (line : String) : St × String :=
   | ["revert"] => let r := revert st.cfg st.node; ({ st with node := r.1 }, showRes r.2)
   | ["snap"] => ({ st with node := snap st.node }, "ok")
   | ["restart"] => let r := restart st.cfg st.node; ({ st with node := r.1 }, showRes r.2)
+  | ["prune", k] =>
+    match hexToNat? k with
+    | some k => ({ st with node := prune st.cfg st.node k }, "ok")
+    | none => (st, "bad-op")
   | ["mark"] => ({ st with mark := st.node }, "ok")
   | ["save"] => ({ st with saved := st.node }, "ok")
   | ["load"] => ({ st with node := st.saved }, "ok")
@@ -179,6 +189,26 @@ def step (st : St) (line : String) : St × String :=
         ({ st with node := r.1 }, showPage r.2)
       | none => (st, "bad-op")
     | _, _, _, _, _, _, _, _ => (st, "bad-op")
+  | ["iter", a, k, fr, to, li] =>
+    match natList? a ",", keysF? k, hexToNat? fr, hexToNat? to, hexToNat? li with
+    | some a, some k, some fr, some to, some li =>
+      if fr > to then (st, "ok - lim=-") else
+      let r := iterCands st.cfg st.node ⟨a, k⟩ li fr to (windowsOf st.cfg.W fr to) st.node.cache [] 0
+      let out := match r.1 with
+        | .error e => showErr e
+        | .ok (bs, lim) =>
+          let l := if bs.isEmpty then "-" else ",".intercalate (bs.map toString)
+          s!"ok {l} lim={match lim with | some b => toString b | none => "-"}"
+      ({ st with node := { st.node with cache := r.2 } }, out)
+    | _, _, _, _, _ => (st, "bad-op")
+  | ["match", a, k, bl, ts] =>
+    match natList? a ",", keysF? k, items? bl, txs? ts with
+    | some a, some k, some bl, some ts =>
+      let f : Filter := ⟨a, k⟩
+      let blk : Block := ⟨ts, bl⟩
+      let bits := String.ofList ((blockRaw 0 blk).map fun e => if «matches» f e.ev then '1' else '0')
+      (st, s!"tb={if testBloom f blk then 1 else 0} ev={if bits.isEmpty then "-" else bits}")
+    | _, _, _, _ => (st, "bad-op")
   | ["naive", a, k, fr, to] =>
     match natList? a ",", keysF? k, hexToNat? fr, hexToNat? to with
     | some a, some k, some fr, some to => (st, showEms (naive ⟨a, k⟩ st.node.chain fr to))
